@@ -10,6 +10,27 @@ CHECKS = {
         note="Kani 0.68/CBMC 6.11/CaDiCaL on dev-profile MIR; stub ahash::RandomState::new; arena CHUNK_SIZE scaled 128->4 in the scratch copy; ids of the watched clause are concrete, polarities/assignments/levels symbolic; Requires clauses and everything on hash containers outside the claim.",
         technique="bounded model checking of the compiled Rust (Kani -> CBMC -> SAT), symbolic inputs, cover-witnessed, vacuity twins",
         ref="DESIGN.md 3/C01"),
+    "C02": dict(
+        text="Bounded model checking (Kani/CBMC) of two kernels the verdict rests on. K5: WatchedLiterals::requires/constrains - the constructors that decide whether a lazily added clause conflicts with the partial solution (=> restart) - for 0..3 candidates and EVERY assignment pattern/level of parent and candidates (symbolic). K6: watch-list surgery (start_watching, cursor, next, update) on 2-3 clauses over a 6-literal alphabet: no lost or double watch, lists terminate - clause pairs/literal/position enumerated, new watch symbolic. PARTIAL: conflict analysis, learning, backjumping, level-1 => Unsolvable and verdict independence are not decided.",
+        note="Kani 0.68/CBMC 6.11; K5 fills the assignment map directly (constructors only read assigned_value); K6: VALUES_PER_CHUNK scaled 128->4, pre-sized map, mostly enumerated (reported as such); analyze()/propagate()/run_sat are outside (hash containers).",
+        technique="bounded model checking of the compiled Rust (Kani -> CBMC -> SAT); symbolic assignments for K5, enumerated configurations with symbolic new watch for K6",
+        ref="DESIGN.md 3/C02"),
+    "C04": dict(
+        text="Kani's automatic panic/assert/debug_assert/overflow/bounds/pointer checks on the clause constructors, the trail-undo kernel and the level encoding, with preconditions weakened to what the public API can establish (in particular constrains(p, f) WITHOUT p != f), for every id < 2^20 / every trail of 1-3 (quick) or 1-4 decisions. Each kernel counterexample is replayed natively (cargo kani playback) and, for the self-constrains case, through the public API (real Solver::solve + rendering, dev and release). PARTIAL: termination/panic-freedom of solve and of the renderer as a whole is not decided.",
+        note="Kani 0.68/CBMC 6.11 dev-profile MIR; known finding F3 (solvable constraining itself) is listed in known_findings.txt and keyed by its own harness; solve()/Conflict::graph/rendering are only exercised by native witness runs, not decided.",
+        technique="bounded model checking of the compiled Rust (Kani -> CBMC -> SAT) with Kani's built-in panic and memory checks; native replay of counterexamples",
+        ref="DESIGN.md 3/C04"),
+    "C05": dict(
+        text="Bounded model checking (Kani/CBMC) of the mechanism that removes abandoned selections: DecisionTracker::undo_until/undo_last/next_unpropagated/try_add_decision/clear on trails of 1-3 (quick) / 1-4 (thorough) decisions with symbolic values, levels, reasons, propagated prefix and target level: exactly the prefix at or below the target survives, undone variables are unassigned with level 0, nothing undone is handed out for propagation again. PARTIAL: decide() and the support argument (every installed solvable is required by an installed one) are not decided.",
+        note="Kani 0.68/CBMC 6.11; trail length and variable ids enumerated, everything else symbolic; undo targets >= bottom level (run_sat's guarantee).",
+        technique="bounded model checking of the compiled Rust (Kani -> CBMC -> SAT), symbolic values/levels/targets on enumerated trail shapes",
+        ref="DESIGN.md 3/C05"),
+    "C15": dict(
+        text="The real AtMostOnceTracker (src/solver/binary_encoding.rs, #[path]-included, nothing modelled) is executed for every candidate count n <= 130 (quick) / 1030 (thorough) in two discovery orders; z3 decides over ALL assignments of candidates and helper variables that the emitted CNF admits no two candidates together (Q1, all pairs at once) and admits every single candidate (Q2), and that re-adding a tracked variable emits nothing (Q3); cvc5 re-decides Q1 at every 2^k-1, 2^k, 2^k+1. Solver counterexamples (n,i,j) are replayed through the real Solver::solve. Kernel claim: the encoder's registration of candidates and clause use by propagation are outside.",
+        note="z3 4.x (python3-vt) + cvc5 1.0; add()'s control flow depends only on the number of distinct variables, so one native run per n is its complete symbolic execution for that n; Q2 skipped for (n,i) whose clauses did not change (argument in evidence).",
+        technique="SMT/SAT decision (z3, cvc5 cross-check) of the CNF emitted by the real encoding code, for all assignments, per candidate count up to the bound",
+        engine="z3",
+        ref="DESIGN.md 3/C15"),
     "C19": dict(
         text="Bounded model checking (Kani/CBMC) of the real Mapping<NameId,u32> against an association-list model written in the harness: every K-tuple of keys over the alphabet {0,1,3,4,5,9} (K=2 quick, 3 thorough; chunk constant scaled to 4 so the alphabet spans three chunks) x {pre-sized, growing}; operation kinds (insert/unset) and values are symbolic; insert/unset return values, get, len, is_empty after every step and iter() (ascending, each stored pair once, then None) are asserted. Serde round trip: see level_note.",
         note="Kani 0.68/CBMC 6.11; VALUES_PER_CHUNK scaled 128->4 in the scratch copy (real constant does not finish); keys enumerated (symbolic keys do not finish), values/kinds symbolic; instantiation Mapping<NameId,u32>; public API only.",
@@ -29,7 +50,7 @@ NA = {
     "C13": "Solver.state reset vs persistent SolverCache across solves: " + R1,
     "C14": "successive run_sat calls over SolverState: " + R1,
 }
-PENDING = ["C02", "C04", "C05", "C15", "C16", "C17", "C18", "C19", "C20"]
+PENDING = ["C16", "C17", "C18", "C20"]
 
 
 def main():
@@ -63,8 +84,10 @@ def main():
             "add_only": True,
         },
         "engines": [
-            {"name": "kani", "path": "/verif/lib/common.py", "serves_properties": sorted(CHECKS),
+            {"name": "kani", "path": "/verif/lib/common.py", "serves_properties": sorted(k for k in CHECKS if CHECKS[k].get("engine", "kani") == "kani"),
              "kind_free_text": "cargo-kani 0.68 (CBMC 6.11 + CaDiCaL) on harnesses under /verif/kani attached to a scratch copy of /repo"},
+            {"name": "z3", "path": "/verif/lib/c15_z3.py", "serves_properties": ["C15"],
+             "kind_free_text": "z3 (python3-vt) + cvc5 on the CNF emitted by the real binary_encoding.rs executed natively from the scratch copy"},
         ],
         "checks": checks,
         "not_applicable": na,
